@@ -243,5 +243,6 @@ pub fn run(args: &Args) -> i32 {
     engine_part(&rep, args);
     file_part(&rep, args);
     crate::props::c04_l2::run_l2(&rep, args);
+    crate::props::h3_l2::c04_h3(&rep, args);
     rep.finish()
 }
